@@ -218,25 +218,31 @@ def r2(ctx):
     from ..util import atom_mapper, reach_condition, truth_table
     am = atom_mapper({f"factor.metadata.kind is Factor.Kind.{k}": i for i, k in enumerate(("CATEGORICAL", "NUMERICAL", "CONSTANT"))})
     on_kind = lambda c: "metadata.kind" in norm(c)
+    from .shared import dict_mapper
+    MAPPER = dict_mapper(P)[0]
     want = {"_encode_categorical": lambda c, n, k: c, "_encode_numerical": lambda c, n, k: (not c) and n, "_encode_constant": lambda c, n, k: (not c) and (not n) and k}
+    ONE = [i for i, v in enumerate(itertools.product([False, True], repeat=3)) if sum(v) <= 1]
     sites, kinds, pair_ok = {}, [], True
     for st in walk_no_nested(g.node):
         if not isinstance(st, (ast.Assign, ast.Expr, ast.Return)):
             continue
         for enc in want:
-            if any(isinstance(c, ast.Call) and norm(c) == f"map_dict(self.{enc})" for c in ast.walk(st)):
+            if any(isinstance(c, ast.Call) and norm(c) == f"{MAPPER}(self.{enc})" for c in ast.walk(st)):
                 sites.setdefault(enc, []).append(st)
     ctx.floor("C08.R2", len(sites), 1, "kind dispatch chains in _encode_evaled_factor")
     for enc, fn_ in want.items():
         sts = sites.get(enc, [])
         tabs = [truth_table(rc, am, 3) if rc is not None else None for rc in (reach_condition(P, st, keep=on_kind) for st in sts)]
-        good = len(sts) == 1 and tabs[0] == tuple(fn_(c, n, k) for c, n, k in itertools.product([False, True], repeat=3))
+        # a value has ONE kind: only the assignments with at most one kind true exist, and on those a chain tested in any order agrees
+        good = len(sts) == 1 and isinstance(tabs[0], tuple) and [tabs[0][i] for i in ONE] == [(c if enc.endswith("categorical") else n if enc.endswith("numerical") else k)
+                                                                                             for i, (c, n, k) in enumerate(itertools.product([False, True], repeat=3)) if i in ONE]
         if sts:
             kinds.append(enc.split("_")[-1].upper())
         pair_ok = pair_ok and good
     refuse = [n for n in walk_no_nested(g.node) if isinstance(n, ast.Raise) and "FactorEncodingError" in norm(n)]
     rt = [truth_table(rc, am, 3) for rc in (reach_condition(P, r_, keep=on_kind) for r_ in refuse) if rc is not None]
-    ok = kinds == ["CATEGORICAL", "NUMERICAL", "CONSTANT"] and any(t_ == tuple((not c) and (not n) and (not k) for c, n, k in itertools.product([False, True], repeat=3)) for t_ in rt)
+    ok = kinds == ["CATEGORICAL", "NUMERICAL", "CONSTANT"] and any(
+        isinstance(t_, tuple) and [t_[i] for i in ONE] == [not any(v) for i, v in enumerate(itertools.product([False, True], repeat=3)) if i in ONE] for t_ in rt)
     first = (sites.get("_encode_categorical") or [g.node])[0]
     ctx.check(ok, "C08.R2", "encoding dispatches on CATEGORICAL / NUMERICAL / CONSTANT and raises for anything else", g.module.line(first),
               ctx.construct(g, text="kind dispatch"), f"dispatch chain handles {kinds}")
@@ -291,18 +297,22 @@ def r3(ctx):
     ctx.check(ok, "C08.R3", "contrasts are applied with the same category order", f.where, ctx.construct(f, text="apply(levels=categories)"),
               f"contrasts.apply must receive levels=categories: {why}")
     sp = P.func("formulaic.utils.sparse.categorical_encode_series_to_sparse_csc_matrix")
-    SK = """
-        def categorical_encode_series_to_sparse_csc_matrix(series, levels=None, drop_first=False):
-            series = pandas.Categorical(series, %s)
-            levels = %s
-            ...
-            codes = series.codes
-            ...
-            sparse_matrix = spsparse.csc_matrix((numpy.ones(codes.shape[0], dtype=float), (indices, codes)), shape=(ANY_rows, len(levels)))
-            return levels, sparse_matrix
-    """
-    ok, why = contains_any(P, sp, [SK % (c, l) for c in ("levels", "categories=levels")
-                                   for l in ("list(levels or series.categories)", "list(levels) if levels else list(series.categories)")])
+    # what is returned for a non-empty level list, written over the parameters: the level list itself and an indicator matrix
+    # with one row per element, one column per level, a one at (row, code) for every coded (non -1) row
+    try:
+        souts = [o for o in sym.outcomes(sp.node) if o.kind == "return" and o.value is not None]
+    except sym.Unmodelled as e:
+        raise AnalysisError(f"C08.R3: the sparse dummy encoder cannot be summarised: {e}")
+    LV = ["list(levels or pandas.Categorical(series, levels).categories)", "list(levels or pandas.Categorical(series, categories=levels).categories)",
+          "list(levels) if levels else list(pandas.Categorical(series, levels).categories)"]
+    full = [o for o in souts if any(pol and norm(c) in LV for c, pol in o.conds) and any(not pol and norm(c) == "drop_first" for c, pol in o.conds)]
+    ok, why = bool(full), "no returning path for a non-empty level list without drop_first"
+    for o in full:
+        b_ = sym.pm("(ANY_lv, spsparse.csc_matrix((numpy.ones(ANY_c.shape[0], dtype=float), (ANY_i, ANY_c)), shape=(ANY_s.shape[0], len(ANY_lv))))", o.value)
+        good = b_ is not None and b_["ANY_lv"] in LV and b_["ANY_s"] in ("pandas.Categorical(series, levels)", "pandas.Categorical(series, categories=levels)") \
+            and b_["ANY_c"] == f"{b_['ANY_s']}.codes[{b_['ANY_s']}.codes != -1]" and b_["ANY_i"] == f"numpy.arange({b_['ANY_s']}.shape[0])[{b_['ANY_s']}.codes != -1]"
+        if not good:
+            ok, why = False, f"returns `{norm(o.value)[:200]}`"
     ctx.check(ok, "C08.R3", "the sparse encoder keeps the categorical's level order and one column per level", sp.where,
               ctx.construct(sp, text="sparse levels"), f"sparse dummy encoder level handling changed: {why}")
 
